@@ -29,18 +29,19 @@ func genSEID(t *rapid.T) uint64 {
 
 // ruleKnobs steers the shape of generated sessions.
 type ruleKnobs struct {
-	maxPairs    int  // number of uplink/downlink PDR pairs
-	choose      bool // allow CHOOSE F-TEIDs
-	ueAlloc     bool // allow UP-allocated UE addresses
-	sdf         bool // allow SDF filters
-	qers        bool // allow QERs
-	buffer      bool // allow buffering / dropping downlink FARs
-	sessQER     bool // allow a session-level QER referenced by every PDR
-	ranges      bool // allow port ranges in SDFs
-	gbr         bool
-	precSpread  bool // wide precedence values
-	accessN3    string
-	appIDs      []string
+	maxPairs   int  // number of uplink/downlink PDR pairs
+	choose     bool // allow CHOOSE F-TEIDs
+	ueAlloc    bool // allow UP-allocated UE addresses
+	sdf        bool // allow SDF filters
+	qers       bool // allow QERs
+	buffer     bool // allow buffering / dropping downlink FARs
+	sessQER    bool // allow a session-level QER referenced by every PDR
+	ranges     bool // allow port ranges in SDFs
+	gbr        bool
+	precSpread bool // wide precedence values
+	prec32     bool // precedence over the whole 32-bit domain of the IE (BESS)
+	accessN3   string
+	appIDs     []string
 }
 
 var sdfRemotes = []string{"any", "8.8.8.8", "8.8.8.0/24", "172.16.0.0/12", "192.0.2.1/32", "0.0.0.0/0", "10.1.2.3/31"}
@@ -154,6 +155,13 @@ func wireOrder(t *rapid.T, pdrs []model.PDR, fars []model.FAR, qers []model.QER)
 	}
 }
 
+// genPrec32 draws a precedence from the whole domain of the 32-bit IE: mostly small values, as deployed, and
+// the neighbourhoods of the 16-, 31- and 32-bit boundaries.
+func genPrec32(t *rapid.T) uint32 {
+	return rapid.OneOf(rapid.Uint32Range(1, 255), rapid.Uint32Range(1, 255), rapid.Uint32(),
+		rapid.SampledFrom([]uint32{0, 1, 65534, 65535, 65536, 65537, 70000, 1<<31 - 1, 1 << 31, 1<<32 - 2, 1<<32 - 1})).Draw(t, "prec32")
+}
+
 func genRules(t *rapid.T, k ruleKnobs, c sessCtx) (pdrs []model.PDR, fars []model.FAR, qers []model.QER) {
 	defer func() { wireOrder(t, pdrs, fars, qers) }()
 	nPairs := rapid.IntRange(1, max(1, k.maxPairs)).Draw(t, "pairs")
@@ -202,6 +210,9 @@ func genRules(t *rapid.T, k ruleKnobs, c sessCtx) (pdrs []model.PDR, fars []mode
 		prec := uint32(rapid.IntRange(1, 255).Draw(t, "prec"))
 		if k.precSpread {
 			prec = rapid.OneOf(rapid.Uint32Range(0, 65535), rapid.SampledFrom([]uint32{0, 1, 65534, 65535})).Draw(t, "precw")
+		}
+		if k.prec32 {
+			prec = genPrec32(t)
 		}
 		var ql []uint32
 		if len(appQ) > 0 {
